@@ -34,7 +34,7 @@ def run(case):
     finally:
         shutil.rmtree(d, ignore_errors=True)
 
-with ThreadPoolExecutor(max_workers=4) as ex:
+with ThreadPoolExecutor(max_workers=2) as ex:
     results = list(ex.map(run, cases))
 det = 0
 for (name, pid, patch, metaf), status, obls in results:
